@@ -1212,7 +1212,7 @@ package main
 //@   panics may
 //@   returns fc_functype(fc)
 //@   ensures a-function-type-ends-in-its-result-type: len(result.Targets) >= 1
-//@   note abstract: the function type of the callee (inference context)
+//@   note abstract: the function type of the callee (inference context).  The clause a-function-type-ends-in-its-result-type is an ASSUMPTION about inferred programs, not a fact about this function: for a callee whose type is not a function type the body returns FuncType{} (no targets).  Every caller under contract (fcToGo, fcPartialApplyGo) then computes fargs = slice.Take(len - 1) with -1, which panics at run time, so no normal return of those callers is described by a clause that relied on the assumption; their contracts say `panics may`.
 
 //@ func ftiToParamName
 //@   props C03
